@@ -570,7 +570,13 @@ func raceRun(w *out.W, tier string) {
 	}
 	bin := filepath.Join(root, "build", "h_det_race")
 	t0 := time.Now()
-	cmd := exec.Command("go", "build", "-race", "-tags", "verif", "-o", bin, "./cmd/det")
+	args := []string{"build", "-race", "-tags", "verif", "-o", bin}
+	// build against the tree under test: build/harness.mod is harness/go.mod with its replace pointed at $VERIF_REPO
+	// (written by the driver before it builds the harnesses)
+	if mf := filepath.Join(root, "build", "harness.mod"); fileExists(mf) {
+		args = append(args, "-modfile="+mf)
+	}
+	cmd := exec.Command("go", append(args, "./cmd/det")...)
 	cmd.Dir = filepath.Join(root, "harness")
 	cmd.Env = append(os.Environ(), "CGO_ENABLED=1")
 	if outp, err := runTimeout(cmd, 10*time.Minute); err != nil {
@@ -593,9 +599,31 @@ func raceRun(w *out.W, tier string) {
 	case err != nil:
 		w.Violation("race", "race-run-failed", "the -race binary failed: "+err.Error()+": "+trunc(strings.Join(strings.Fields(txt), " "), 300))
 	}
+	// the same binary, cold: the concurrent schedule above runs after a sequential pass has used every
+	// package-level value once; here each process starts with the concurrent first use (cold.go)
+	if dir, derr := os.MkdirTemp("", "detcoldrace"); derr == nil {
+		defer os.RemoveAll(dir)
+		if base, perr := coldPrepare(dir); perr == nil {
+			env := append(os.Environ(), "GORACE=exitcode=66 halt_on_error=0")
+			for pi, pair := range coldPairs() {
+				id := fmt.Sprintf("race-cold/%s+%s", pair[0], pair[1])
+				ctxt := coldRun(w, bin, env, id, pair, pi, dir, base)
+				if i := strings.Index(ctxt, "WARNING: DATA RACE"); i >= 0 {
+					w.Violation(id, "data-race", fmt.Sprintf("race detector, fresh process, first use of %s next to %s in 12 goroutines: %s", pair[0], pair[1], trunc(strings.Join(strings.Fields(ctxt[i:]), " "), 700)))
+				}
+				w.ImplOnly(id, "cold start under the race detector")
+				w.Count("race-cold-process")
+			}
+		}
+	}
 	w.ImplOnly("race", fmt.Sprintf("go build -race %.0fs; concurrent schedule under the race detector: %s", buildS, trunc(strings.TrimSpace(txt), 80)))
 	w.Set("race", fmt.Sprintf("built in %.0fs, ran in %.0fs", buildS, time.Since(t0).Seconds()-buildS))
 	w.Count("race-run")
+}
+
+func fileExists(p string) bool {
+	_, err := os.Stat(p)
+	return err == nil
 }
 
 func runTimeout(cmd *exec.Cmd, d time.Duration) ([]byte, error) {
